@@ -121,7 +121,7 @@ def _tlc_chunks(prop_mode, open_names, items, wd, tag, chunk=700, par=6):
 
     def one(job):
         k, path, n = job
-        to_file = path + ".out" if prop_mode == "RENDER" else None
+        to_file = path + ".out" if prop_mode in ("RENDER", "TEXT") else None
         res = C.run_tlc("Trace_Doc", cfgname, "%s%d" % (tag, k), env={"TRACE": path}, workers=1, deque=True,
                         timeout=3000, xmx="3g", to_file=to_file, keep_tags=["REPLAY"] if to_file else None)
         C.tlc_must_pass(res, "Trace_Doc")
@@ -185,6 +185,27 @@ def random_cases(wd, tier, out=None):
     return replay
 
 
+TEXTEDITS = {"quick": 1200, "thorough": 30000}
+
+
+def text_cases(wd, tier, base_replay, out=None):
+    """1-2 random CHARACTER edits of the well-formed renderings in `base_replay`; the specification
+    reads each text with its own scanner (XmlLex) and decides well-formedness (Trace_Doc, text mode)."""
+    path = os.path.join(wd, "textedit.ndjson")
+    C.run_harness(["doc-textedit", "--in", base_replay, "--seed", str(C.seed() * 100 + 7),
+                   "--count", str(TEXTEDITS[tier]), "--out", path])
+    items = C.read_ndjson(path)
+    replay = os.path.join(wd, "textedit.replay")
+    with open(replay, "w") as f:
+        for k, res, n, part in _tlc_chunks("TEXT", [], items, wd, "doctext", chunk=400, par=7):
+            with open(part) as g:
+                for line in g:
+                    f.write(line)
+    if out is not None:
+        out.extra["character_edited_texts"] = len(items)
+    return replay
+
+
 def _relevant(prop, e):
     if prop == "C01":
         return bool(e["wf"])
@@ -216,6 +237,11 @@ def run(prop, tier):
         with open(replay, "a") as f, open(rnd) as g:
             for line in g:
                 f.write(line)
+        if prop in ("C02", "C04"):
+            txt = text_cases(wd, tier, replay, out)
+            with open(replay, "a") as f, open(txt) as g:
+                for line in g:
+                    f.write(line)
         obs = os.path.join(wd, "docs.obs")
         C.run_harness(["doc-replay", "--in", replay, "--out", obs])
         t3 = time.time()
@@ -254,6 +280,8 @@ def run(prop, tier):
             "token alphabet of MC_Doc.tla (names a, b, p:a; 4 start-tags, 4 texts, CDATA, comment, PI, 3 XML "
             "declarations, 4 DOCTYPE shapes, ENTITY/NOTATION/ATTLIST/ELEMENT declarations; 30 ill-formed tokens)",
             "namespace declarations are not compared; no external subset is read; no parameter entities",
+            "C02/C04 also: 1-2 character-level edits of well-formed renderings, read by the specification's scanner "
+            "XmlLex.tla (texts with parameter entities are skipped; a name with two colons is not demanded to be rejected)",
             "fast path: an observation exactly equal to the REPLAY expectation is counted ok without TLC "
             "(a slice of those is judged by Trace_Doc.tla as well)",
         ]
